@@ -101,8 +101,10 @@ def harnesses(tier, seed):
         hs += [par_h("find", "MF", 4, 2, 1, src="sched"), par_h("find", "FMF", 4, 2, 2, src="sched")]  # unknown length: HasMore::Maybe
         hs += [seq_h("find", "MF", 3), seq_h("any", "FMF", 3), seq_h("find", "FLF", 3)]
         hs += [endless_h("find", 1), endless_h("find", 2), endless_h("first", 1)]
+        # all three find kernels x both chunk paths with the finder running alone (natively observable in every schedule)
         hs += [drain_h("find", "MF", "iterf", 4, 1), drain_h("find", "M", "iterf", 4, 2), drain_h("find", "FMF", "iterf", 4, 1),
-               drain_h("find", "FLF", "iterf", 3, 1), drain_h("any", "F", "iter", 4, 1)]
+               drain_h("find", "FMF", "iterf", 4, 2), drain_h("find", "FLF", "iterf", 3, 1), drain_h("find", "FLF", "iter", 4, 2),
+               drain_h("any", "F", "iter", 4, 1)]
     else:
         for ty in ("E", "M", "F", "MF", "FM", "FMF", "FL", "FLF"):
             for term in ("find", "any", "all", "first"):
